@@ -7,6 +7,20 @@ VERIF = Path(__file__).resolve().parent.parent
 
 # id -> (implemented, category, technique, level text, level note, design ref)
 P = {
+    'C10': (True, 'exploration',
+            'structural reference resolver (with explicit don\'t-care zone) vs the real resolver; all permutations; real Chain/InputTasks access',
+            'The real _find_task_full_name, Chain[...], `in`, attribute access and task.input_tasks[...] are run on generated name sets '
+            'over confusable segment alphabets (all sets of <=2 names quick / <=3 thorough over a 40-name universe, random sets up to 6 names), '
+            'every shortened/partial/near-miss query, every permutation for sets <=4; outcomes compared with a structural oracle.',
+            'Trusts the structural reading of "shorter form" stated in the evidence assumptions; liberal-only winners are a don\'t-care zone.',
+            'DESIGN.md §3 C10'),
+    'C11': (True, 'exploration',
+            'reference substitution + typed structure comparison + idempotence/str-likeness/copy monitors; real Config/Chain constructions',
+            'search_and_replace_placeholders is run on generated JSON-like trees (mapping and object global_vars) and compared leaf by leaf with a '
+            'reference substitution; non-string leaves, structure, idempotence, str behaviour, repr after copy/deepcopy of string, container and Config '
+            'are monitored; real Config/Chain constructions put placeholders in `uses` paths, context values (dict and file) and object-definition arguments.',
+            'Ambiguous brace nestings and replacement values containing braces are outside the text oracle (idempotence/type still checked).',
+            'DESIGN.md §3 C11'),
     'C17': (True, 'exploration',
             'controller-dictated worker completion orders (bounded-exhaustive per small config) + result/call-count oracle',
             'Runs the real parallel_map (both implementations) and chunked under a controller that blocks every call of f and '
